@@ -1,7 +1,7 @@
 from sqlfluff.core.parser import BaseSegment
 
 from sqllineage.core.holders import SubQueryLineageHolder
-from sqllineage.core.models import Path, Table
+from sqllineage.core.models import Column, Path, Table
 from sqllineage.core.parser.sqlfluff.extractors.base import BaseExtractor
 from sqllineage.core.parser.sqlfluff.extractors.select import SelectExtractor
 from sqllineage.core.parser.sqlfluff.models import SqlFluffColumn, SqlFluffTable
@@ -32,6 +32,7 @@ class CreateInsertExtractor(BaseExtractor):
     ) -> SubQueryLineageHolder:
         holder = self._init_holder(context)
         src_flag = tgt_flag = False
+        metadata_columns: list[Column] = []
         for segment in list_child_segments(statement):
             if segment.type == "with_compound_statement":
                 holder |= self.delegate_to_cte(segment, holder)
@@ -83,6 +84,8 @@ class CreateInsertExtractor(BaseExtractor):
                             if identifier := sub_segment.get_child("identifier"):
                                 sub_segment = identifier
                         columns.append(SqlFluffColumn.of(sub_segment))
+                    # column list specified in DML takes precedence over target table columns from metadata
+                    holder.graph.remove_nodes_from(metadata_columns)
                     holder.add_write_column(*columns)
 
             elif segment.type == "keyword":
@@ -111,9 +114,10 @@ class CreateInsertExtractor(BaseExtractor):
                         and self.metadata_provider
                         and statement.type == "insert_statement"
                     ):
-                        holder.add_write_column(
-                            *self.metadata_provider.get_table_columns(table=write_obj)
+                        metadata_columns = self.metadata_provider.get_table_columns(
+                            table=write_obj
                         )
+                        holder.add_write_column(*metadata_columns)
                 elif segment.type == "literal":
                     if segment.raw.isnumeric():
                         # Special Handling for Spark Bucket Table DDL
